@@ -17,8 +17,10 @@ import vlib
 LEVEL = "proof"
 MODELLED = ("hm", "ul", "pl", "sa", "rb", "xs", "av", "po", "pf")
 M32 = 0xffffffff
-# open findings of the unchanged library are generated / judged strictly only with VERIF_CONT_OPEN=1 (notes/cont.md, "Deepening round")
-OPEN = os.environ.get("VERIF_CONT_OPEN") == "1"
+# The scripts of the findings of the deepening round (notes/cont.md) are part of every run: five are fixed in /repo (6c4e8aa, 7d7a602,
+# e161ae8, a8b271d, a22623c); the sixth - iwrb_back on a wrapped ring - is the KNOWN FINDING C18-rb-back-wrapped: the scripts of
+# the family with this origin are judged by the bounded-deque reference and their verdict carries the origin in the replay object
+RB_BACK_ORIGIN = "rb-back-wrapped"
 def _rb_hdr():
     # sizeof(struct iwrp) of the tree under test (a layout fact from the probe, T1); 32 on the 64-bit build: pos, len, usize, buf
     try:
@@ -108,7 +110,7 @@ def gen_hm(rng, size):
     vid = [rng.range(1, 1000) * 1000]
     # iwhmap_lru_init in the middle of the life of the map (entries exist, possibly a second time with another bound)
     late = rng.weighted([(0, 3), (1, 2), (2, 1)])
-    open_ = os.environ.get("VERIF_CONT_OPEN") == "1"
+    open_ = True   # the former VERIF_CONT_OPEN gate: the defects these scripts trip are fixed (a8b271d, a22623c, e161ae8)
     failing = rng.chance(1, 3)     # scripts with allocation failures inside iwhmap.c
 
     def val():
@@ -140,7 +142,7 @@ def gen_hm(rng, size):
             op = "get"
         if failing and rng.chance(1, 12):
             # hm failat: the n-th allocation of iwhmap.c at one of the listed sites returns NULL.  `readd` (_entry_add inside
-            # _rehash, finding cont-hmap-rehash-fail) and `add` in front of a rename (cont-hmap-rename-fail) only with OPEN
+            # _rehash, fixed a8b271d) and `add` in front of a rename (fixed a22623c)
             if open_ and rng.chance(1, 2):
                 lines.append("hm failat %d %s" % (rng.range(1, 30), rng.choice(["all", "readd", "add,readd", "readd,rehash,node"])))
             elif rng.chance(1, 3):
@@ -269,14 +271,14 @@ def gen_pl(rng, size):
         elif op == "take":
             c = rng.choice(["pop", "shift", "shift", "rm"])
             # a trailing "n" = the optional osize argument is NULL.  iwlist_shift / iwlist_remove dereference it all the same
-            # (finding cont-iwlist-osize-null): those two only with VERIF_CONT_OPEN=1
+            # until 6c4e8aa (finding cont-iwlist-osize-null)
             if c == "rm":
                 i2 = rng.choice([0, max(0, n - 1), n, rng.range(0, n)])
-                lines.append("pl rm %d%s" % (i2, " n" if OPEN and rng.below(4) == 0 else ""))
+                lines.append("pl rm %d%s" % (i2, " n" if rng.below(4) == 0 else ""))
                 if i2 < n:
                     n -= 1
             else:
-                lines.append("pl " + c + (" n" if rng.below(4) == 0 and (c == "pop" or OPEN) else "")); n = max(0, n - 1)
+                lines.append("pl " + c + (" n" if rng.below(4) == 0 else "")); n = max(0, n - 1)
         elif op == "set":
             lines.append("pl set %d %s" % (rng.choice([0, max(0, n - 1), n, rng.range(0, n)]), item()))
         else:
@@ -786,8 +788,8 @@ def directed_pl(rng):
         body = ["pl insert %s %s" % ("%d" % i if where == "end" else "0", item()) for i in range(270)]
         body += ["pl rm %d" % (269 - i) for i in range(270)] + ["pl pop", "pl rm 0"]
         mk("insert-" + where, 0, body)
-    if OPEN:
-        # finding cont-iwlist-osize-null: iwlist_shift / iwlist_remove write through the osize pointer the header calls optional
+    if True:
+        # finding cont-iwlist-osize-null (fixed 6c4e8aa): iwlist_shift / iwlist_remove wrote through the osize pointer the header calls optional
         ss.append({"c": "pl", "tag": "dir-pl-osize-null", "lines": ["pl new 0", "pl push 6162", "pl push 63", "pl push 64", "pl pop n", "pl at 0 n",
                                                                      "pl shift n", "pl rm 0 n", "pl destroy"]})
     return ss
@@ -853,7 +855,7 @@ def directed_ul(rng):
 def directed_hm_af(key, val):
     """allocation failure at every allocation site of iwhmap.c x the interesting states (harness: hm failat <n> <sites>)"""
     ss = []
-    open_ = os.environ.get("VERIF_CONT_OPEN") == "1"
+    open_ = True   # the former VERIF_CONT_OPEN gate: the defects these scripts trip are fixed (a8b271d, a22623c, e161ae8)
 
     def add(tag, lines):
         ss.append({"c": "hm", "tag": "dir-hm-af-" + tag, "lines": lines + ["hm failoff", "hm destroy"]})
@@ -1067,8 +1069,8 @@ def directed_hm(rng):
                  "hm put %s %d" % (key(kind, 5), val()), "hm put %s %d" % (key(kind, 6), val()), "hm create0", "hm destroy"]
         ss.append({"c": "hm", "tag": "dir-hm-header-" + kind, "lines": lines})
     ss += directed_hm_af(key, val)
-    if os.environ.get("VERIF_CONT_OPEN") == "1":
-        # open finding hmap-iter-next-past-end: one more iwhmap_iter_next after the call that returned false
+    if True:
+        # finding hmap-iter-next-past-end (fixed e161ae8): one more iwhmap_iter_next after the call that returned false
         ss.append({"c": "hm", "tag": "dir-hm-iterx", "lines": ["hm new u32 -1", "hm iterx", "hm put 1 5", "hm iterx", "hm destroy"]})
     return ss
 
@@ -1086,13 +1088,19 @@ def directed_rb(rng):
                           "rb state", "rb back", "rb state"]
         lines += ["rb wrap %d 0" % us, "rb state", "rb wrap %d %d" % (us, RB_HDR - 1), "rb wrap %d %d" % (us, RB_HDR + 5 * us), "rb put aa", "rb destroy"]
         ss.append({"c": "rb", "tag": "dir-rb-wrap-us%d" % us, "lines": lines})
-    if OPEN:
-        # open findings of the unchanged library (see notes/cont.md): a ring of capacity 0 accepts a put (heap overflow)
-        ss.append({"c": "rb", "tag": "dir-rb-cap0", "lines": ["rb new 4 0", "rb state", "rb put 01020304", "rb state", "rb destroy"]})
-        # ... and iwrb_wrap with a unit size of 0 divides by zero
-        ss.append({"c": "rb", "tag": "dir-rb-wrap-usize0", "lines": ["rb wrap 0 64", "rb state"]})
-        # the strict deque reading of iwrb_back on a wrapped ring (finding cont-rb-back-wrapped)
-        ss.append({"c": "rb", "tag": "dir-rb-back-wrapped", "lines": ["rb new 1 3", "rb put 01", "rb put 02", "rb put 03", "rb put 04", "rb back", "rb state", "rb destroy"]})
+    # finding cont-rb-capacity-zero (fixed 7d7a602): a ring of capacity 0 accepted a put (heap overflow) ...
+    ss.append({"c": "rb", "tag": "dir-rb-cap0", "lines": ["rb new 4 0", "rb state", "rb put 01020304", "rb state", "rb destroy"]})
+    # ... and iwrb_wrap with a unit size of 0 divided by zero
+    ss.append({"c": "rb", "tag": "dir-rb-wrap-usize0", "lines": ["rb wrap 0 64", "rb state", "rb wrap 0 0", "rb wrap 0 31"]})
+    # KNOWN FINDING C18-rb-back-wrapped: iwrb_back on a wrapped ring cannot drop a unit (the ring has no count field): the unit
+    # taken back reappears as the oldest one and the count stays at capacity.  This family is judged by the bounded-deque reference
+    # (strict); each script is minimal: fill, wrap by k puts, b backs, look.  Every other rb script keeps the tolerant reading
+    # (only the units known to be present are compared), so any OTHER misbehaviour of the ring is an ordinary violation.
+    for ln in (1, 2, 3, 5):
+        for extra in (1, 2, ln + 1):
+            for backs in (1, ln):
+                lines = ["rb new 1 %d" % ln] + ["rb put %02x" % (i + 1) for i in range(ln + extra)] + ["rb back"] * backs + ["rb state", "rb destroy"]
+                ss.append({"c": "rb", "tag": "dir-rb-back-wrapped-%d-%d-%d" % (ln, extra, backs), "origin": RB_BACK_ORIGIN, "lines": lines})
 
     def put():
         ctr[0] += 1
@@ -1710,7 +1718,7 @@ def oracle_sa(lines, outs):
     return bad
 
 
-def oracle_rb(lines, outs):
+def oracle_rb(lines, outs, strict=False):
     # d: true contents newest first; stale: slots still counted by the ring after back() on a wrapped ring
     bad = []
     d, stale, wrapped, ln = [], 0, False, 1
@@ -1762,7 +1770,7 @@ def oracle_rb(lines, outs):
             d, stale, wrapped = [], 0, False
         r = kv(o)
         it = _units(r.get("it", "-"))
-        if stale == 0 or OPEN:
+        if stale == 0 or strict:
             ok = r.get("n") == str(len(d)) and it == d and r.get("pk") == (d[0] if d else "nil")
         else:
             ok = it[:len(d)] == d and (not d or r.get("pk") == d[0]) and len(it) <= ln
@@ -2274,10 +2282,14 @@ def evaluate(run, scripts, impl, asan, model, record=True):
     found = []
 
     def oracle(c, s, o, partial):
-        bad = ORACLES[c](s["lines"][:len(o)], o)
+        origin = s.get("origin", "generated")
+        if origin == RB_BACK_ORIGIN:
+            bad = oracle_rb(s["lines"][:len(o)], o, strict=True)
+        else:
+            bad = ORACLES[c](s["lines"][:len(o)], o)
         if bad:
             li, msg = bad[0]
-            found.append((0, {"kind": "oracle", "container": c, "script": s["lines"][:li + 1], "line": li, "impl": o[li][:2000]},
+            found.append((0, {"kind": "oracle", "container": c, "origin": origin, "script": s["lines"][:li + 1], "line": li, "impl": o[li][:2000]},
                           "%s: `%s` -> %s%s" % (c, s["lines"][li], msg, " (the script crashed later)" if partial else "")))
         return bool(bad)
     for c, ss, (outs, crashes), (aouts, acrashes), mres in results:
@@ -2416,7 +2428,10 @@ def replay(run, path):
     for l, o in zip(r["script"][-8:], (outs[0] or [])[-8:]):
         print("  %-40s -> %s" % (l[:40], o[:160]))
     part = outs[0] if outs[0] is not None else (crashes[0][3] if crashes and crashes[0][0] >= 0 else [])
-    bad = [] if kind == "leak" else ORACLES[c](s["lines"][:len(part)], part)
+    if r.get("origin") == RB_BACK_ORIGIN:
+        bad = oracle_rb(s["lines"][:len(part)], part, strict=True)
+    else:
+        bad = [] if kind == "leak" else ORACLES[c](s["lines"][:len(part)], part)
     for li, msg in bad[:3]:
         print("oracle: line %d `%s`: %s" % (li, s["lines"][li], msg))
     if crashes:
